@@ -71,6 +71,8 @@ type Explorer struct {
 	nAsserts int
 	concrete bool // init phase: no symbolic values allowed
 	panicMsg string
+	ds       *domState
+	nDom     int
 }
 
 func (ex *Explorer) reset(it workItem) {
@@ -92,6 +94,7 @@ func (ex *Explorer) reset(it workItem) {
 	ex.inconcl = ""
 	ex.newItems = nil
 	ex.panicMsg = ""
+	ex.ds = newDomState()
 }
 
 // newVar declares (or fetches) a symbolic variable.
@@ -129,6 +132,9 @@ func (ex *Explorer) define(t *Term) {
 func (ex *Explorer) assertPC(t *Term) {
 	if t.IsTrue() {
 		return
+	}
+	if !noDomain {
+		ex.noteConstraint(t)
 	}
 	ex.define(t)
 	ex.pending.WriteString("(assert ")
@@ -207,6 +213,15 @@ func (ex *Explorer) decide(c *Term) bool {
 		return c.val != 0
 	}
 	tt := ex.tt
+	dres, wT, wF := -1, 0, 0
+	if !noDomain {
+		dres, wT, wF = ex.domDecide(c)
+		if dres == 1 || dres == 0 {
+			// implied by the single-variable constraints of the path: no decision
+			ex.nDom++
+			return dres == 1
+		}
+	}
 	if ex.pos < len(ex.prefix) {
 		d := ex.prefix[ex.pos]
 		ex.pos++
@@ -229,7 +244,24 @@ func (ex *Explorer) decide(c *Term) bool {
 	if b {
 		other = tt.Not(c)
 	}
-	res, model := ex.check(other)
+	var res SatResult
+	var model map[string]uint64
+	if dres == 2 {
+		// both sides feasible, witness by changing only this variable
+		res = Sat
+		model = make(map[string]uint64, len(ex.tt.vars))
+		for idx, sv := range ex.tt.vars {
+			model[sv.Name] = ex.vals[idx]
+		}
+		w := wT
+		if b {
+			w = wF
+		}
+		model[ex.tt.vars[c.sv].Name] = uint64(w)
+		ex.nDom++
+	} else {
+		res, model = ex.check(other)
+	}
 	ex.nForks++
 	switch res {
 	case Sat:
